@@ -407,3 +407,19 @@ def run(repo, rep, tier):  # noqa: F811 -- round-7 remedies / borrowings
 _ADD_R7S = ' Borrowed: R05.17 (the None guard / omit_none of a TypeVar field follows the substituted type).'
 EXPLANATION += _ADD_R7S
 LEVEL_TEXT += _ADD_R7S
+
+
+_run_before_r7rt = run
+
+
+def run(repo, rep, tier):  # noqa: F811 -- round 7: get_real_type leaves the trusted base
+    _run_before_r7rt(repo, rep, tier)
+    if getattr(rep, "borrowed", False):
+        return
+    from ..core import typepreds as _tprt
+    _tprt.real_type_cases(repo, rep, "R01.7")
+
+
+_ADD_R7RT = " R01.7: CodeBuilder.get_real_type / _get_field_class are interpreted (type-level evaluator, stub builder whose resolved_type_params come from the interpreted resolve_type_params) on nine fields of generic dataclasses: a field's type is substituted with the parameters of the class that defines it, resolved through the bases (inherited `b: S` of P[S, int] is int while the subclass's own `c: S` is its argument)."
+EXPLANATION += _ADD_R7RT
+LEVEL_TEXT += _ADD_R7RT
